@@ -8,6 +8,8 @@ import Mathlib.Algebra.Module.Basic
 import Mathlib.Tactic.Module
 import Mathlib.Tactic.Ring
 import Mathlib.Tactic.Abel
+import Mathlib.Tactic.Group
+import Mathlib.Tactic.Linarith
 import Mathlib.Tactic.LinearCombination
 import Mathlib.Data.ZMod.Basic
 import RelicVerif.Model.PcValid
@@ -152,6 +154,67 @@ theorem genRoute_range (n : ℕ) (hn : 0 < n) (k : ℤ) : 0 ≤ genRoute n k ∧
 /-- the one-digit path is taken exactly when |k| fits one digit -/
 theorem mulRoute_dig (w n : ℕ) (k : ℤ) : (mulRoute w n k).1 = true ↔ k.natAbs < 2 ^ w := by
   unfold mulRoute; split <;> simp [*]
+
+section GT
+variable {T : Type} [CommGroup T] [DecidableEq T]
+
+def iter (φ : T →* T) : ℕ → T → T
+  | 0, a => a
+  | i + 1, a => φ (iter φ i a)
+
+/-- the abstract target group: no zero element, Frobenius φ, fp12_exp_cyc_sps = exponentiation by the parameter z -/
+def absT (φ : T →* T) (z : ℤ) : TOps T where
+  isOne := fun a => decide (a = 1)
+  isZero := fun _ => false
+  mul := fun a b => a * b
+  sqr := fun a => a * a
+  inv := fun a => a⁻¹
+  frb := fun a i => iter φ i a
+  expSps := fun a => a ^ z
+  exp := fun a k => a ^ k
+  eq := fun a b => decide (a = b)
+
+/-- the reduction of the B12 branch (not B12_383) of gt_is_valid to its relations -/
+theorem gt_b12_rel (φ : T →* T) (z : ℤ) (r : ℕ) (a : T) :
+    gtIsValid (absT φ z) false .b12 r a = true ↔ a ≠ 1 ∧ φ (φ (φ (φ a))) * a = φ (φ a) ∧ φ a = a ^ z := by
+  simp only [gtIsValid, testCyc, absT, iter]
+  by_cases h1 : a = 1 <;> by_cases h2 : φ (φ (φ (φ a))) * a = φ (φ a) <;> simp [h1, h2]
+
+/-- B12, GT: the coded test (cyclotomic test and a^p = a^z) accepts exactly the non-unit elements killed by r -/
+theorem gt_b12 (φ : T →* T) (z : ℤ) (r : ℕ) (lam : ℤ) (hr : (r : ℤ) = z ^ 4 - z ^ 2 + 1)
+    (hlam : ∀ a : T, a ^ r = 1 → φ a = a ^ lam) (hlz : (r : ℤ) ∣ lam - z) (a : T) :
+    gtIsValid (absT φ z) false .b12 r a = true ↔ a ≠ 1 ∧ a ^ r = 1 := by
+  rw [gt_b12_rel]
+  have key : φ a = a ^ z → φ (φ a) = a ^ (z ^ 2) ∧ φ (φ (φ (φ a))) = a ^ (z ^ 4) := by
+    intro h
+    have e2 : φ (φ a) = a ^ (z ^ 2) := by rw [h, map_zpow, h, ← zpow_mul]; congr 1; ring
+    refine ⟨e2, ?_⟩
+    rw [e2, map_zpow, map_zpow, e2, ← zpow_mul]; congr 1; ring
+  constructor
+  · rintro ⟨h0, hc, hz⟩
+    refine ⟨h0, ?_⟩
+    obtain ⟨e2, e4⟩ := key hz
+    rw [e4, e2] at hc
+    have : a ^ (z ^ 4 - z ^ 2 + 1) = 1 := by
+      rw [zpow_add, zpow_sub, zpow_one, mul_right_comm, hc, mul_inv_cancel]
+    rw [← hr, zpow_natCast] at this
+    exact this
+  · rintro ⟨h0, h⟩
+    have hrz : a ^ (r : ℤ) = 1 := by rw [zpow_natCast]; exact h
+    have hz : φ a = a ^ z := by
+      rw [hlam a h]
+      obtain ⟨c, hc⟩ := hlz
+      have : lam = z + r * c := by linarith
+      rw [this, zpow_add, zpow_mul, hrz, one_zpow, mul_one]
+    obtain ⟨e2, e4⟩ := key hz
+    refine ⟨h0, ?_, hz⟩
+    rw [e4, e2]
+    have : a ^ (z ^ 4 - z ^ 2 + 1) = 1 := by rw [← hr]; exact hrz
+    rw [zpow_add, zpow_sub, zpow_one] at this
+    rw [← mul_inv_eq_one]
+    rw [← this]; group
+
+end GT
 
 /-- the hypotheses of `g1_b12` are satisfiable: Z/13 with z = 2 (r = z⁴ − z² + 1 = 13), ψ = multiplication by 3
     (3² + 3 + 1 = 13, 3² + 2² = 13) -/
